@@ -374,6 +374,15 @@ func (a *agg) add(cs json.RawMessage, ic *inCase, o *outCase, calibrating bool) 
 			c.Count("mutants_accepted_and_executed", 1)
 		}
 	}
+	if o.ImmKind != "" {
+		c.Count("imm_mutants", 1)
+		c.Distinct("immediate_kinds_mutated", o.ImmKind)
+		if anyAcc {
+			c.Count("imm_mutants_accepted_somewhere", 1)
+			c.Distinct("immediate_kinds_accepted_noncanonical", o.ImmKind)
+		}
+		c.Count("imm_call_outcomes_compared_between_engines", int64(o.Agree))
+	}
 	if o.Deadline > 0 {
 		c.Inconclusive("exec-deadline")
 	}
@@ -548,6 +557,25 @@ func run(c *core.Ctx) int {
 	resA, outsA = nil, nil
 	lap("phase A (seeds, calibration)")
 
+	// immediate kinds present in the accepted corpus modules (the kind is drawn first, then a
+	// module that has it, so that rare instructions are mutated as often as common ones)
+	kindSeeds := map[string][]int{}
+	var immKinds []string
+	for _, i := range accSeeds {
+		for _, k := range ImmKinds(seeds[i].Bin) {
+			if kindSeeds[k] == nil {
+				immKinds = append(immKinds, k)
+			}
+			kindSeeds[k] = append(kindSeeds[k], i)
+		}
+	}
+	sort.Strings(immKinds)
+	if len(immKinds) < 20 {
+		fmt.Println("C03: instruction walker finds too few immediate kinds in the corpus:", immKinds)
+		return 2
+	}
+	c.Extra("immediate_kinds_in_corpus", immKinds)
+
 	// ---- phase B: mutants and raw inputs
 	envB := append(append([]string(nil), env...), fmt.Sprintf("C03_BOUNDS=%g,%g,%g,%g", a.bnd.A[0], a.bnd.B[0], a.bnd.A[1], a.bnd.B[1]))
 	nB := total - len(casesA)
@@ -565,13 +593,21 @@ func run(c *core.Ctx) int {
 		for i := 0; i < n; i++ {
 			var ic inCase
 			switch x := rng.Intn(100); {
-			case x < 58:
+			case x >= 86: // instruction-immediate re-encodings of valid modules
+				k := immKinds[rng.Intn(len(immKinds))]
+				if rng.Chance(3, 5) {
+					l := kindSeeds[k]
+					ic = inCase{K: "imut", I: l[rng.Intn(len(l))], S: rng.U64(), W: k}
+				} else {
+					ic = inCase{K: "iwmut", S: rng.U64(), W: k}
+				}
+			case x < 50:
 				idx := accSeeds[rng.Intn(len(accSeeds))]
 				if rng.Chance(1, 3) {
 					idx = rng.Intn(len(seeds))
 				}
 				ic = inCase{K: "mut", I: idx, S: rng.U64()}
-			case x < 86:
+			case x < 74:
 				ic = inCase{K: "wmut", S: rng.U64()}
 			default:
 				ic = inCase{K: "raw", S: rng.U64()}
@@ -622,6 +658,9 @@ func run(c *core.Ctx) int {
 	if a.executed == 0 || c.Counter("mutants_accepted_and_executed") == 0 {
 		c.Inconclusive("monitor-not-reached:acceptance-soundness")
 	}
+	if c.Counter("imm_call_outcomes_compared_between_engines") == 0 || c.DistinctN("immediate_kinds_mutated") < 20 {
+		c.Inconclusive("monitor-not-reached:immediate-reencoding")
+	}
 	if c.Counter("wgen_validity_checked") == 0 {
 		c.Inconclusive("monitor-not-reached:validity")
 	}
@@ -631,6 +670,7 @@ func run(c *core.Ctx) int {
 	c.Assume("allocation bound calibrated on accepted unmutated inputs (corpus, wgen, and three hand-built modules with one function of 50 000 locals = the per-function limit other engines accept) with 4x headroom; a rejected input is held to the smaller of the two engines' bounds (it never reached an engine); TotalAlloc is read around CompileModule only, in a child that runs nothing else")
 	c.Assume("runtimes use WithMemoryLimitPages(512) and WithCloseOnContextDone(true); modules declaring memory min > 256 pages or table min > 2^20 are compiled but not instantiated")
 	c.Assume("a compile that does not return within the step budget is inconclusive unless the differential watchdog (same input alone, long budget, after a control input of similar size that finishes) confirms it; a guest that does not return after its deadline is left to C07")
+	c.Assume("immediate re-encodings: both engines compile under every feature set; equal CompileModule verdicts and equal call outcome classes (ok / trap kind / error; unaligned-atomic and out-of-bounds count as one; comparison stops at a stack overflow, exit or deadline) are demanded for these mutants only")
 	c.Assume("not demanded: rejecting every invalid module; equal acceptance on both engines; equal results on both engines (C01)")
 	removeChildFiles(c)
 	return c.Finish(a.evals, int64(len(a.mutHash)),
